@@ -161,7 +161,7 @@ class Outcome:
             v = d['b%d' % i]
             self.blocks.append(b'' if v == '-' else bytes.fromhex(v)); i += 1
 
-def run_driver(cmd, case_file, timeout=1800, env=None):
+def run_driver(cmd, case_file, timeout=120, env=None):
     with open(case_file) as f:
         p = subprocess.run(cmd, stdin=(subprocess.DEVNULL if cmd[-1] == case_file else f), capture_output=True, text=True, timeout=timeout, env=env)
     res = {}
@@ -170,20 +170,37 @@ def run_driver(cmd, case_file, timeout=1800, env=None):
         res[l.split(' ', 1)[0]] = Outcome(l)
     return res, p.returncode, p.stderr
 
-def run_impl(impl_dir, case_file, cases, locale=None, wrapper=None, statics=None):
-    """runs the C driver; if it dies (a crash the signal handlers cannot absorb) the remaining
-    cases are re-run one by one and the crashing one is reported as a fault"""
+def run_impl(impl_dir, case_file, cases, locale=None, wrapper=None, statics=None, budget=150):
+    """runs the C driver. A run that dies (a crash the signal handlers cannot absorb) or hangs is bisected:
+    the culprit case gets the outcome CRASH / HANG (both are reported by the oracles as faults)."""
     base = (wrapper or []) + [impl_dir + '/impl_driver', locale or '-', statics or '-']
-    cmd = base + [case_file]
-    res, rc, err = run_driver(cmd, case_file)
-    missing = [c for c in cases if c.id not in res]
-    for c in missing:
-        tmp = case_file + '.one'
-        open(tmp, 'w').write(c.line() + '\n')
-        r1, rc1, e1 = run_driver(base + [tmp], tmp)
-        if c.id in r1: res[c.id] = r1[c.id]
-        else: res[c.id] = Outcome('%s ret=CRASH h=- fault=?crash' % c.id)
-    return res
+    def go(cs, tag, tmo):
+        path = '%s.%s' % (case_file, tag)
+        with open(path, 'w') as f:
+            for c in cs: f.write(c.line() + '\n')
+        try:
+            res, rc, err = run_driver(base + [path], path, timeout=tmo)
+            hung = False
+        except subprocess.TimeoutExpired:
+            res, hung = {}, True
+        os.unlink(path)
+        missing = [c for c in cs if c.id not in res]
+        if not missing: return res
+        if len(cs) == 1:
+            res[cs[0].id] = Outcome('%s ret=%s h=- fault=?%s' % (cs[0].id, 'HANG' if hung else 'CRASH', 'hang' if hung else 'crash'))
+            return res
+        if hung:
+            # nothing usable came back: bisect everything with a shorter leash
+            mid = len(cs) // 2
+            res.update(go(cs[:mid], tag + 'a', max(tmo // 2, 10))); res.update(go(cs[mid:], tag + 'b', max(tmo // 2, 10)))
+        else:
+            # the driver died at the first missing case: that one is the culprit, the rest still has to run
+            first = missing[0]
+            res[first.id] = Outcome('%s ret=CRASH h=- fault=?crash' % first.id)
+            rest = [c for c in missing if c.id != first.id]
+            if rest: res.update(go(rest, tag + 'r', tmo))
+        return res
+    return go(cases, 'i', budget)
 
 def run_model(model_driver, margs, case_file, shards=16):
     """the extracted model is pure: shard the case file over the cores"""
